@@ -472,6 +472,74 @@ pub fn encode_cases(r: &mut Rng, count: usize) -> Vec<String> {
         let n = *r.pick(&[0usize, 1, 10, 100, 119, 120, 121, 127, 128, 129, 200, 16370, 16383, 16384, 16400, 65535, 65536, 70000]);
         vec![b'z'; n]
     };
+    // directed: every length-prefixed field at 65535 / 65536 / 65537 bytes with room to spare, so that
+    // the two byte prefix is the only thing that can refuse the request
+    for n in [65535usize, 65536, 65537] {
+        let z = vec![b'z'; n];
+        let small = b"t/1".to_vec();
+        let mut lines: Vec<(u64, Emit)> = Vec::new();
+        // PUBLISH: topic, correlation data, property strings and binary, user property key and value
+        for which in 0..6u8 {
+            let mut b = Emit::default();
+            b.bytes(if which == 0 { &z } else { &small });
+            let qos = (which % 3) as u64;
+            if qos > 0 { b.n(1).n(7); } else { b.n(0); }
+            let mut ps: Vec<OProp> = Vec::new();
+            match which {
+                2 => ps.push(OProp { kind: 2, num: 0, data: z.clone(), data2: vec![] }),
+                3 => ps.push(OProp { kind: 3, num: 0, data: z.clone(), data2: vec![] }),
+                4 => ps.push(OProp { kind: 22, num: 0, data: z.clone(), data2: b"v".to_vec() }),
+                5 => ps.push(OProp { kind: 22, num: 0, data: b"k".to_vec(), data2: z.clone() }),
+                _ => {}
+            }
+            if which == 1 { b.n(1).bytes(&z); } else { b.n(0); }
+            b.props(&ps);
+            b.b(false).n(qos).b(false);
+            b.bytes(b"p");
+            lines.push((5, b));
+        }
+        // SUBSCRIBE / UNSUBSCRIBE: a filter, alone and after a short one
+        for two in [false, true] {
+            let mut b = Emit::default();
+            b.n(9).props(&[]).n(if two { 2 } else { 1 });
+            if two { b.bytes(&small).n(1).b(false).b(false).n(0); }
+            b.bytes(&z).n(1).b(false).b(true).n(0);
+            lines.push((6, b));
+            let mut b = Emit::default();
+            b.n(9).props(&[]).n(if two { 2 } else { 1 });
+            if two { b.bytes(&small); }
+            b.bytes(&z);
+            lines.push((7, b));
+        }
+        // CONNECT: user name, password, will payload (a will topic is a fixed 128 byte string in the API)
+        for which in [0u8, 1, 3] {
+            let mut b = Emit::default();
+            b.n(60).props(&[]).bytes(b"cid");
+            match which {
+                0 => { b.n(1).bytes(&z).bytes(b"pw"); }
+                1 => { b.n(1).bytes(b"user").bytes(&z); }
+                _ => { b.n(0); }
+            }
+            if which >= 2 {
+                b.n(1);
+                b.bytes(if which == 2 { &z } else { &small });
+                b.bytes(if which == 3 { &z[..] } else { &b"w"[..] });
+                b.n(1).b(false).props(&[]);
+            } else {
+                b.n(0);
+            }
+            b.b(true);
+            lines.push((4, b));
+        }
+        for (cmd, b) in lines {
+            for cap in [66000u64, 150000] {
+                let mut line = Emit::default();
+                line.n(cmd).n(cap);
+                line.0.extend(b.0.iter());
+                out.push(line.line());
+            }
+        }
+    }
     for i in 0..count {
         let mut e = Emit::default();
         let kind = i % 6;
@@ -616,11 +684,26 @@ pub fn reply_cases(r: &mut Rng, count: usize) -> Vec<String> {
             let pos = r.below(props.len() as u64 + 1) as usize;
             props.insert(pos, p);
         }
+        // a property block longer than 64 KiB: the response topic / correlation data stand beyond byte 65535
+        if i < 2000 && i % 25 == 7 {
+            let l = *r.pick(&[65535usize, 65534, 65533, 65531, 65530, 65529, 65528, 65527, 65520, 65500, 40000]);
+            let filler = match r.below(3) {
+                0 => OProp { kind: 22, num: 0, data: b"k".to_vec(), data2: vec![b'f'; l] },
+                1 => OProp { kind: 22, num: 0, data: vec![b'f'; l], data2: vec![] },
+                _ => OProp { kind: 2, num: 0, data: vec![b'f'; l], data2: vec![] },
+            };
+            let pos = r.below(2) as usize;
+            if l == 40000 {
+                props.insert(pos.min(props.len()), filler.clone());
+            }
+            props.insert(pos.min(props.len()), filler);
+        }
         let mut body = lp(b"req/t");
         let qos = r.below(3) as u8;
         if qos > 0 { body.extend_from_slice(&[0, 7]); }
         let mut block: Vec<u8> = props.iter().flat_map(enc_prop).collect();
-        if i % 17 == 16 && !block.is_empty() {
+        // (a garbled 64 KiB block costs the list-based model minutes: one error item per byte, each counting what is left)
+        if i % 17 == 16 && !block.is_empty() && block.len() < 4096 {
             block = mutate(r, &block);
         }
         body.extend(varint(block.len() as u32));
